@@ -305,6 +305,21 @@ var solvers = []solverSpec{
 	}},
 }
 
+func init() {
+	// VERIF_SOLVERS=z3-5.1.0,cvc5-1.0 restricts the portfolio (debugging / cross-checking)
+	if v := os.Getenv("VERIF_SOLVERS"); v != "" {
+		var keep []solverSpec
+		for _, s := range solvers {
+			if strings.Contains(","+v+",", ","+s.name+",") {
+				keep = append(keep, s)
+			}
+		}
+		if len(keep) > 0 {
+			solvers = keep
+		}
+	}
+}
+
 var procSlots = make(chan struct{}, 16)
 
 type Runner struct {
@@ -426,6 +441,17 @@ func (r *Runner) Solve(vc *VC, o *Obl, idx int) *Result {
 		}
 		if a.verdict == want {
 			agree = append(agree, a.solver)
+			// z3 4.8.12 was seen to answer unsat on a satisfiable query (a seeded change, C17-1):
+			// its unsat counts only when a second solver agrees
+			alone := want == "unsat" && len(agree) == 1 && agree[0] == "z3-4.8.12" && len(solvers) > 1
+			if alone && pending > 0 {
+				continue
+			}
+			if alone {
+				agree = nil
+				res.Raw["note"] = "only z3-4.8.12 answered unsat; not accepted without a second solver"
+				break
+			}
 			if !r.both || len(agree) >= 2 || pending == 0 {
 				res.Status = "discharged"
 				res.Solver = strings.Join(agree, "+")
@@ -450,6 +476,9 @@ func (r *Runner) Solve(vc *VC, o *Obl, idx int) *Result {
 		}
 	}
 	if res.Status == "" {
+		if len(agree) == 1 && agree[0] == "z3-4.8.12" && want == "unsat" && len(solvers) > 1 {
+			agree = nil
+		}
 		if len(agree) > 0 {
 			res.Status = "discharged"
 			res.Solver = strings.Join(agree, "+")
